@@ -53,6 +53,20 @@ var trTargets = []trTarget{
 	{"frame", "MessageType", "Class"},
 	{"frame", "MessageType", "IsPriority"},
 	{"frame", "MessageType", "IsEncrypted"},
+	{"frame", "FrameV1", "TTL"},
+	{"frame", "FrameV1", "SetTTL"},
+	{"frame", "FrameV1", "ReduceTTL"},
+	{"frame", "FrameV1", "FlowControl"},
+	{"frame", "FrameV1", "HasFlowFlag"},
+	{"frame", "FrameV1", "SetFlowFlag"},
+	{"frame", "FrameV1", "RecvRate"},
+	{"frame", "FrameV1", "MessageType"},
+	{"frame", "FrameV1", "SequenceNum"},
+	{"frame", "FrameV1", "SetSequenceNum"},
+	{"peering", "LinkFrame", "Length"},
+	{"peering", "LinkFrame", "Version"},
+	{"peering", "LinkFrame", "SequenceNum"},
+	{"peering", "LinkFrame", "SetSequenceNum"},
 }
 
 type kindT struct {
@@ -156,6 +170,8 @@ type translator struct {
 	recvName string             // receiver identifier
 	recvObj  types.Object       // receiver object
 	ptrRecv  bool               // pointer receiver to a struct (fields) vs. scalar value receiver
+	sliceRecv bool              // value receiver of a byte-slice type: recv[k] with constant k is a byte variable
+	bytefld  map[string]bool    // struct fields of type []byte
 	fields   []string           // struct field order
 	fkind    map[string]kindT   // field kinds (translatable ones)
 	used     map[string]bool    // fields referenced
@@ -308,8 +324,118 @@ func lit(v constant.Value, k kindT) string {
 	return ""
 }
 
+// constIndex returns the value of a constant, non-negative index expression.
+func (t *translator) constIndex(e ast.Expr) (int, bool) {
+	tv, ok := t.p.info.Types[ast.Unparen(e)]
+	if !ok || tv.Value == nil || tv.Value.Kind() != constant.Int {
+		return 0, false
+	}
+	v, exact := constant.Int64Val(tv.Value)
+	if !exact || v < 0 || v > 1<<20 {
+		return 0, false
+	}
+	return int(v), true
+}
+
+// byteBase recognises the byte slices whose elements at constant positions are treated as byte
+// variables: a []byte field of the pointer receiver (recv.data) or a byte-slice value receiver.
+func (t *translator) byteBase(e ast.Expr) (string, bool) {
+	e = ast.Unparen(e)
+	if t.sliceRecv {
+		if id, ok := e.(*ast.Ident); ok && t.p.info.Uses[id] == t.recvObj {
+			return "self", true
+		}
+	}
+	if sel, ok := e.(*ast.SelectorExpr); ok && t.ptrRecv {
+		if id, ok := sel.X.(*ast.Ident); ok && t.p.info.Uses[id] == t.recvObj && t.bytefld[sel.Sel.Name] {
+			return sel.Sel.Name, true
+		}
+	}
+	return "", false
+}
+
+// byteElem: base[k] with constant k  ->  pseudo field "base_k" (a byte)
+func (t *translator) byteElem(e ast.Expr) (string, bool) {
+	ix, ok := ast.Unparen(e).(*ast.IndexExpr)
+	if !ok {
+		return "", false
+	}
+	base, ok := t.byteBase(ix.X)
+	if !ok {
+		return "", false
+	}
+	k, ok := t.constIndex(ix.Index)
+	if !ok {
+		return "", false
+	}
+	name := fmt.Sprintf("%s_%d", base, k)
+	t.fkind[name] = kindT{"N", 8}
+	return name, true
+}
+
+// byteRange: base[a:b] with constant bounds -> the pseudo fields base_a .. base_(b-1)
+func (t *translator) byteRange(e ast.Expr) ([]string, bool) {
+	sl, ok := ast.Unparen(e).(*ast.SliceExpr)
+	if !ok || sl.Slice3 {
+		return nil, false
+	}
+	base, ok := t.byteBase(sl.X)
+	if !ok {
+		return nil, false
+	}
+	lo := 0
+	if sl.Low != nil {
+		if lo, ok = t.constIndex(sl.Low); !ok {
+			return nil, false
+		}
+	}
+	if sl.High == nil {
+		return nil, false
+	}
+	hi, ok := t.constIndex(sl.High)
+	if !ok || hi < lo || hi-lo > 8 {
+		return nil, false
+	}
+	var out []string
+	for k := lo; k < hi; k++ {
+		name := fmt.Sprintf("%s_%d", base, k)
+		t.fkind[name] = kindT{"N", 8}
+		out = append(out, name)
+	}
+	return out, true
+}
+
+// bigEndianGet recognises m.GetUint16/32/64(base[a:b]) (package m of mycoria: big endian)
+func (t *translator) bigEndianGet(c *ast.CallExpr) (string, kindT, bool) {
+	sel, ok := c.Fun.(*ast.SelectorExpr)
+	if !ok || len(c.Args) != 1 {
+		return "", kindT{}, false
+	}
+	n := map[string]int{"GetUint16": 2, "GetUint32": 4, "GetUint64": 8}[sel.Sel.Name]
+	if n == 0 {
+		return "", kindT{}, false
+	}
+	bs, ok := t.byteRange(c.Args[0])
+	if !ok || len(bs) != n {
+		return "", kindT{}, false
+	}
+	out := ""
+	for i, b := range bs {
+		t.used[b] = true
+		if i == 0 {
+			out = "f_" + b
+		} else {
+			out = fmt.Sprintf("(%s * 256 + f_%s)", out, b)
+		}
+	}
+	return out, kindT{"N", n * 8}, true
+}
+
 // fieldOf: recv.f  ->  field name
 func (t *translator) fieldOf(e ast.Expr) (string, bool) {
+	if name, ok := t.byteElem(e); ok {
+		return name, true
+	}
 	sel, ok := e.(*ast.SelectorExpr)
 	if !ok || !t.ptrRecv {
 		return "", false
@@ -337,6 +463,9 @@ func (t *translator) exprKind(e ast.Expr) kindT {
 		}
 	}
 	if call, ok := e.(*ast.CallExpr); ok {
+		if _, k, ok := t.bigEndianGet(call); ok {
+			return k
+		}
 		if sel, ok := call.Fun.(*ast.SelectorExpr); ok {
 			switch sel.Sel.Name {
 			case "Equal", "Before", "After":
@@ -390,6 +519,12 @@ func (t *translator) expr(e ast.Expr) string {
 			return "f_" + f
 		}
 		trFail("unsupported selector %s", nodeText(t.p.fset, x))
+	case *ast.IndexExpr:
+		if f, ok := t.byteElem(x); ok {
+			t.used[f] = true
+			return "f_" + f
+		}
+		trFail("unsupported index expression %s", nodeText(t.p.fset, x))
 	case *ast.UnaryExpr:
 		k := t.exprKind(x)
 		a := t.expr(x.X)
@@ -524,6 +659,9 @@ func (t *translator) exprAs(e ast.Expr, k kindT) string {
 }
 
 func (t *translator) call(c *ast.CallExpr) string {
+	if v, _, ok := t.bigEndianGet(c); ok {
+		return v
+	}
 	// conversion
 	if tv, ok := t.p.info.Types[c.Fun]; ok && tv.IsType() && len(c.Args) == 1 {
 		dk, ok := t.kindOfType(tv.Type)
@@ -577,9 +715,58 @@ func (t *translator) call(c *ast.CallExpr) string {
 
 // ---------- statements (continuation style) ----------
 
+// allFields: the struct fields in declaration order, then the byte variables (base_k) sorted by
+// base and position; the sets used/mutated are complete from the first pass.
+func (t *translator) allFields() []string {
+	seen := map[string]bool{}
+	var out []string
+	for _, f := range t.fields {
+		if !seen[f] {
+			seen[f] = true
+			out = append(out, f)
+		}
+	}
+	var pseudo []string
+	for f := range t.used {
+		if !seen[f] && strings.Contains(f, "_") {
+			pseudo = append(pseudo, f)
+		}
+	}
+	for f := range t.mutated {
+		if !seen[f] && strings.Contains(f, "_") && !t.used[f] {
+			pseudo = append(pseudo, f)
+		}
+	}
+	sort.Slice(pseudo, func(i, j int) bool {
+		bi, ki := splitPseudo(pseudo[i])
+		bj, kj := splitPseudo(pseudo[j])
+		if bi != bj {
+			return bi < bj
+		}
+		return ki < kj
+	})
+	for _, f := range pseudo {
+		if !seen[f] {
+			seen[f] = true
+			out = append(out, f)
+			if _, ok := t.fkind[f]; !ok {
+				t.fkind[f] = kindT{"N", 8}
+			}
+		}
+	}
+	return out
+}
+
+func splitPseudo(s string) (string, int) {
+	i := strings.LastIndex(s, "_")
+	k := 0
+	fmt.Sscanf(s[i+1:], "%d", &k)
+	return s[:i], k
+}
+
 func (t *translator) ret(vals []string) string {
 	var parts []string
-	for _, f := range t.fields {
+	for _, f := range t.allFields() {
 		if t.mutated[f] {
 			parts = append(parts, "f_"+f)
 		}
@@ -735,6 +922,24 @@ func (t *translator) stmts(list []ast.Stmt, k func(d int) string, d int) string 
 	case *ast.EmptyStmt:
 		return next(d)
 	case *ast.ExprStmt:
+		// m.PutUint16/32/64(base[a:b], v): big-endian store into byte variables
+		if call, ok := x.X.(*ast.CallExpr); ok {
+			if sel, ok := call.Fun.(*ast.SelectorExpr); ok && len(call.Args) == 2 {
+				if n := map[string]int{"PutUint16": 2, "PutUint32": 4, "PutUint64": 8}[sel.Sel.Name]; n > 0 {
+					if bs, ok := t.byteRange(call.Args[0]); ok && len(bs) == n {
+						v := t.exprAs(call.Args[1], kindT{"N", n * 8})
+						tmp := t.fresh("tmp")
+						out := fmt.Sprintf("%slet %s := %s in\n", ind(d), tmp, v)
+						for i, b := range bs {
+							t.used[b] = true
+							t.mutated[b] = true
+							out += fmt.Sprintf("%slet f_%s := (N.shiftr %s %d mod 256) in\n", ind(d), b, tmp, 8*(n-1-i))
+						}
+						return out + next(d)
+					}
+				}
+			}
+		}
 		// atomic Store / Add as a statement
 		if f, m, args, ok := t.atomicCall(x.X); ok {
 			fk := t.fkind[f]
@@ -939,7 +1144,7 @@ func translateFuncPass(tg trTarget, used, mutated map[string]bool) (name, def, d
 	if fn == nil {
 		return name, "", "", fmt.Errorf("function not found")
 	}
-	t := &translator{p: p, fn: fn, fkind: map[string]kindT{}, used: used, mutated: mutated,
+	t := &translator{p: p, fn: fn, fkind: map[string]kindT{}, used: used, mutated: mutated, bytefld: map[string]bool{},
 		names: map[types.Object]string{}, taken: map[string]bool{}, kinds: map[types.Object]kindT{}, errCodes: map[string]int{}}
 	var params []string
 	if fn.Recv != nil {
@@ -957,11 +1162,17 @@ func translateFuncPass(tg trTarget, used, mutated map[string]bool) (name, def, d
 			for _, f := range st.Fields.List {
 				for _, n := range f.Names {
 					t.fields = append(t.fields, n.Name)
+					if typeText(p.fset, f.Type) == "[]byte" {
+						t.bytefld[n.Name] = true
+						continue
+					}
 					if k, ok := t.kindOfTypeExpr(f.Type); ok {
 						t.fkind[n.Name] = k
 					}
 				}
 			}
+		} else if tv, ok := p.info.Types[rf.Type]; ok && tv.Type != nil && tv.Type.Underlying().String() == "[]byte" {
+			t.sliceRecv = true
 		} else {
 			k, ok := t.kindOfTypeExpr(rf.Type)
 			if !ok {
@@ -1011,6 +1222,7 @@ func translateFuncPass(tg trTarget, used, mutated map[string]bool) (name, def, d
 		}
 		return ind(d) + t.ret(vals)
 	}, 1)
+	t.fields = t.allFields()
 	var fparams []string
 	for _, f := range t.fields {
 		if t.used[f] {
